@@ -166,7 +166,25 @@ class CallsMixin:
             env.vars[tgt.id] = val
         elif isinstance(tgt, (ast.Tuple, ast.List)):
             n = len(tgt.elts)
-            if val.k == "gamma" and val.a[1].k == "tuple" and val.a[2].k == "tuple":
+
+            def item_of(v, i):
+                """element i of a (possibly gated, possibly nested) tuple value; None if some alternative is not a tuple of n"""
+                if v.k in ("tuple", "list"):
+                    return v.a[0][i] if len(v.a[0]) == n else None
+                if v.k == "gamma":
+                    x, y = item_of(v.a[1], i), item_of(v.a[2], i)
+                    if x is None or y is None:
+                        if is_const(v.a[1], None) or v.a[1].k == "undef":
+                            return y
+                        if is_const(v.a[2], None) or v.a[2].k == "undef":
+                            return x
+                        return None
+                    return gamma(v.a[0], x, y)
+                return None
+            gated = [item_of(val, i) for i in range(n)] if val.k == "gamma" else None
+            if gated is not None and all(g is not None for g in gated):
+                items = gated
+            elif val.k == "gamma" and val.a[1].k == "tuple" and val.a[2].k == "tuple":
                 items = [gamma(val.a[0], x, y) for x, y in zip(val.a[1].a[0], val.a[2].a[0])]
             elif val.k in ("tuple", "list"):
                 items = list(val.a[0])
